@@ -29,14 +29,38 @@ def bindable(port):
         s.close()
 
 
+def _valid_broadcast():
+    from .n_c05 import gen
+    return bytes(gen(random.Random(5)))
+
+
 async def run_history(seq):
     ports = free_udp_ports(2)
     got = []
     b = SwitcherBridge(got.append, ports)
     listening = False
     problems = []
+    # the endpoints the bridge creates are captured so that a datagram can be handed to its protocol at a chosen moment
+    loop = asyncio.get_running_loop()
+    endpoints = []
+    orig_create = loop.create_datagram_endpoint
+
+    async def capture(*a, **k):
+        r = await orig_create(*a, **k)
+        endpoints.append(r)
+        return r
+    loop.create_datagram_endpoint = capture
+    good = _valid_broadcast()
     for n, a in enumerate(seq):
         blocker = None
+        if listening and not a.startswith("start") and a != "enter":
+            # a broadcast arrives right before the bridge is stopped: it is delivered before stop() returns or not at all
+            for t, proto in endpoints:
+                if not t.is_closing():
+                    try:
+                        proto.datagram_received(good, ("127.0.0.1", 9))
+                    except Exception as e:   # noqa: BLE001
+                        problems.append(f"step {n}: datagram_received raised {type(e).__name__}")
         if a.startswith("start") or a == "enter":
             if a in ("start_fail0", "start_fail1") and not listening:
                 blocker = socket.socket(socket.AF_INET, socket.SOCK_DGRAM)
@@ -61,14 +85,18 @@ async def run_history(seq):
             else:
                 await b.__aexit__(*((None, None, None) if a == "leave" else (ValueError, ValueError("body"), None)))
             listening = False
+        delivered = len(got)
         await asyncio.sleep(0)
         await asyncio.sleep(0.01)
+        if not listening and len(got) != delivered:
+            problems.append(f"step {n} {a}: {len(got) - delivered} callback(s) invoked after the bridge had stopped")
         if b.is_running != listening:
             problems.append(f"step {n} {a}: is_running={b.is_running}, expected {listening}")
         for p in ports:
             if bindable(p) == listening:
                 problems.append(f"step {n} {a}: port {p} bindable={not listening} expected {listening and 'bound' or 'free'}")
     await b.stop()
+    loop.create_datagram_endpoint = orig_create
     return problems
 
 
